@@ -196,6 +196,89 @@ async fn client_abandoned_then_answered_case() -> Result<(), String> {
     Ok(())
 }
 
+/// C01 / C05, "a late response for an expired call is discarded without disturbing any other call": `k` calls
+/// (deadline 300 ms) expire unanswered; then `m` further calls (deadline 60 s) are transmitted; then the peer sends
+/// late responses bearing the ids of the expired calls (twice each). None of the later calls may be resolved by
+/// them; each must then resolve with the reply that bears its own id.
+async fn client_late_reply_after_expiry_case(k: usize, m: usize) -> Result<(), String> {
+    let what = format!("client: {k} call(s) expire unanswered, {m} further call(s) are written, then late replies for the expired ids arrive");
+    let (tx, mut rx): (ClientEnd, ServerEnd) = transport::channel::unbounded();
+    let client::NewClient { client, dispatch } = client::new::<String, String, _>(client::Config::default(), tx);
+    let dispatch = tokio::spawn(dispatch);
+    let t0 = tokio::time::Instant::now();
+    let mut first = vec![];
+    for i in 0..k {
+        let mut ctx = context::current();
+        ctx.deadline = Instant::now() + Duration::from_millis(300);
+        let c = client.clone();
+        first.push(tokio::spawn(async move { c.call(ctx, format!("a{i}")).await }));
+    }
+    settle().await;
+    let mut expired_ids = vec![];
+    while let Some(Some(Ok(msg))) = rx.next().now_or_never() {
+        if let ClientMessage::Request(r) = msg {
+            expired_ids.push(r.id);
+        }
+    }
+    if expired_ids.len() != k {
+        return Err(format!("C05 {what}: {} of {k} requests were transmitted", expired_ids.len()));
+    }
+    advance_to(t0, Duration::from_millis(400)).await;
+    for h in first {
+        match h.await.map_err(|e| e.to_string())? {
+            Err(RpcError::DeadlineExceeded) => {}
+            other => return Err(format!("C05 {what}: an unanswered call resolved with {other:?} after its deadline")),
+        }
+    }
+    let mut later = vec![];
+    for i in 0..m {
+        let mut ctx = context::current();
+        ctx.deadline = Instant::now() + Duration::from_secs(60);
+        let c = client.clone();
+        later.push(tokio::spawn(async move { c.call(ctx, format!("b{i}")).await }));
+        settle().await;
+    }
+    let mut later_ids = vec![];
+    while let Some(Some(Ok(msg))) = rx.next().now_or_never() {
+        if let ClientMessage::Request(r) = msg {
+            later_ids.push((r.id, r.message.clone()));
+        }
+    }
+    if later_ids.len() != m {
+        return Err(format!("C05 {what}: {} of {m} later requests were transmitted", later_ids.len()));
+    }
+    for _ in 0..2 {
+        for id in &expired_ids {
+            rx.send(Response { request_id: *id, message: Ok(format!("late reply for expired call {id}")) }).await.map_err(|e| e.to_string())?;
+        }
+    }
+    settle().await;
+    if dispatch.is_finished() {
+        return Err(format!("C16 {what}: the dispatch ended"));
+    }
+    for (i, h) in later.iter().enumerate() {
+        if h.is_finished() {
+            return Err(format!("C01 {what}: later call b{i} was resolved by a response that bears the id of an expired call"));
+        }
+    }
+    for (id, body) in &later_ids {
+        rx.send(Response { request_id: *id, message: Ok(format!("reply to {body}")) }).await.map_err(|e| e.to_string())?;
+    }
+    settle().await;
+    for (i, h) in later.into_iter().enumerate() {
+        if !h.is_finished() {
+            return Err(format!("C01 {what}: later call b{i} is still pending after the reply bearing its id arrived"));
+        }
+        match h.await.map_err(|e| e.to_string())? {
+            Ok(b) if b == format!("reply to b{i}") => {}
+            other => return Err(format!("C01 {what}: later call b{i} resolved with {other:?}")),
+        }
+    }
+    drop(client);
+    dispatch.abort();
+    Ok(())
+}
+
 struct Flag(Arc<AtomicBool>);
 impl Drop for Flag {
     fn drop(&mut self) {
@@ -365,15 +448,23 @@ async fn deadlines_enforced_and_never_early() {
     if let Err(e) = client_abandoned_then_answered_case().await {
         failures.push(e);
     }
+    for k in 1..=2 {
+        for m in 1..=2 {
+            evaluations += 1;
+            if let Err(e) = client_late_reply_after_expiry_case(k, m).await {
+                failures.push(e);
+            }
+        }
+    }
     for throttled in [false, true] {
         evaluations += 1;
         if let Err(e) = server_late_completion_case(throttled).await {
             failures.push(e);
         }
     }
-    println!("VERIF-BOUNDED deadlines evaluations={evaluations} bound=4 deadlines x (3 reply times | 3 handler finish times x 2 channel stacks) + 1 queued-before-transmission scenario + 1 abandoned-as-the-reply-arrives scenario + 2 late-handler-completion scenarios");
+    println!("VERIF-BOUNDED deadlines evaluations={evaluations} bound=4 deadlines x (3 reply times | 3 handler finish times x 2 channel stacks) + 1 queued-before-transmission scenario + 1 abandoned-as-the-reply-arrives scenario + 2 late-handler-completion scenarios + 4 late-reply-after-expiry scenarios (1..=2 expired x 1..=2 later calls)");
     let mut kept: Vec<String> = vec![];
-    for tag in ["C05", "C06", "C08", "C11", "C16"] {
+    for tag in ["C01", "C05", "C06", "C08", "C11", "C16"] {
         kept.extend(failures.iter().filter(|f| f.starts_with(tag)).take(2).cloned());
     }
     for f in &kept {
